@@ -12,6 +12,7 @@ import OFV.Proofs.C12Maj
 import OFV.Proofs.C12Swap
 import OFV.Proofs.C12Fock
 import OFV.Proofs.C12Bogo
+import OFV.Proofs.C12Sector
 import Mathlib.Data.Matrix.Mul
 import Mathlib.LinearAlgebra.Matrix.Notation
 
@@ -54,6 +55,67 @@ theorem ground_energy_is_lowest (es : List Rat) (c : Rat) :
   linarith
 
 example : groundEnergy [-1, 1, -2, 3] 0 = -3 ∧ lowest [-1, 1, -2, 3] 0 = -3 := by decide +kernel
+
+/-! ## spin sectors and the chemical potential (energy lists) -/
+
+/-- **spin sectors.**  For block-concatenated orbital energies (`numpy.concatenate((up, down))` of the spin-block-diagonal
+path, or the two lists returned for `spin_sector = 0, 1`) the many-body spectrum is exactly the set of sums of one level of
+each sector (the constant counted once) -/
+theorem sector_spectrum_is_sum_set (up down : List Rat) (c x : Rat) :
+    x ∈ spectrum (up ++ down) c ↔ ∃ xu ∈ spectrum up c, ∃ xd ∈ spectrum down 0, x = xu + xd := by
+  unfold spectrum
+  simp only [List.mem_map]
+  constructor
+  · rintro ⟨y, hy, rfl⟩
+    obtain ⟨xu, hu, xd, hd, rfl⟩ := (mem_subsetSums_append up down y).1 hy
+    exact ⟨xu + c, ⟨xu, hu, rfl⟩, xd + 0, ⟨xd, hd, rfl⟩, by ring⟩
+  · rintro ⟨_, ⟨xu, hu, rfl⟩, _, ⟨xd, hd, rfl⟩, rfl⟩
+    exact ⟨xu + xd, (mem_subsetSums_append up down _).2 ⟨xu, hu, xd, hd, rfl⟩, by ring⟩
+
+/-- the ground energy (Model = Spec lowest level) is additive over the spin sectors -/
+theorem sector_ground_energy_additive (up down : List Rat) (c : Rat) :
+    groundEnergy (up ++ down) c = groundEnergy up c + groundEnergy down 0 ∧
+    lowest (up ++ down) c = lowest up c + lowest down 0 := by
+  have h := groundEnergy_append up down c
+  refine ⟨h, ?_⟩
+  rw [← (ground_energy_is_lowest (up ++ down) c).2.2, ← (ground_energy_is_lowest up c).2.2,
+    ← (ground_energy_is_lowest down 0).2.2]
+  exact h
+
+/-- the default occupation of the concatenated energies is the default occupation of the up sector followed by that of the
+down sector with indices offset by the number of up orbitals; in particular the number of filled orbitals is the sum of
+the sector fillings -/
+theorem sector_default_occupation_splits (tol : Rat) (up down : List Rat) :
+    defaultOccupation tol (up ++ down) = defaultOccupation tol up ++ whereLt (-tol) down up.length ∧
+    (defaultOccupation tol (up ++ down)).length =
+      (defaultOccupation tol up).length + (whereLt (-tol) down up.length).length := by
+  have h : defaultOccupation tol (up ++ down) = defaultOccupation tol up ++ whereLt (-tol) down up.length := by
+    unfold defaultOccupation
+    rw [whereLt_append]; simp
+  exact ⟨h, by rw [h, List.length_append]⟩
+
+/-- **chemical potential.**  With orbital energies `ε_j − μ` (eigenvalues of the combined matrix `M − μ·1`) every level built
+from `k` orbitals is the level of `M` shifted by `−k μ` -/
+theorem chemical_potential_shifts_levels (es : List Rat) (mu c x : Rat) :
+    x ∈ spectrum (es.map (· - mu)) c ↔ ∃ S : List Rat, List.Sublist S es ∧ x = S.sum - S.length * mu + c := by
+  unfold spectrum
+  simp only [List.mem_map]
+  constructor
+  · rintro ⟨y, hy, rfl⟩
+    obtain ⟨S, hS, rfl⟩ := (mem_subsetSums_shift es mu y).1 hy
+    exact ⟨S, hS, rfl⟩
+  · rintro ⟨S, hS, rfl⟩
+    exact ⟨_, (mem_subsetSums_shift es mu _).2 ⟨S, hS, rfl⟩, rfl⟩
+
+/-- the sector energies must come from the combined matrix: for the one-orbital sector `ε = 1`, `μ = 2` the default
+occupation / ground energy computed from the bare energy (empty, `0`) differ from those of `ε − μ` (orbital `0`, `−1`) —
+the seeded change "spin_sector slices hermitian_part" -/
+theorem test_sector_energies_need_combined_matrix :
+    defaultOccupation (1/100000000) [1] = [] ∧ defaultOccupation (1/100000000) ([1].map (· - 2)) = [0] ∧
+    groundEnergy [1] 0 = 0 ∧ groundEnergy ([1].map (· - 2)) 0 = -1 := by decide +kernel
+
+example : spectrum [-1, 2] 0 = [0, 2, -1, 1] ∧ groundEnergy ([-1, 2] ++ [3, -2]) 0 = -3 ∧
+    defaultOccupation 0 ([-1, 2] ++ [3, -2]) = [0, 3] := by decide +kernel
 
 /-- the default occupation of `jw_get_gaussian_state` (`where(energies < -EQ_TOLERANCE)`) selects exactly
 the orbitals whose energy is below `-tol`, whatever the order of the energies -/
